@@ -113,7 +113,7 @@ class Worker:
         env["MALLOC_CHECK_"] = "3"           # glibc: abort on a detectably corrupted heap
         self.err = open(os.path.join(self.errdir, "c10-worker-%d.err" % os.getpid()), "w+b")
         self.p = subprocess.Popen([C.PY, os.path.join(C.VERIF, "harness", "c10_worker.py"), self.root],
-                                  stdin=subprocess.PIPE, stdout=subprocess.PIPE, stderr=self.err, env=env, bufsize=0)
+                                  stdin=subprocess.PIPE, stdout=subprocess.PIPE, stderr=self.err, env=env)
 
     def call(self, op, payload, timeout=120):
         if self.p is None or self.p.poll() is not None:
@@ -121,9 +121,9 @@ class Worker:
         try:
             self.p.stdin.write(pickle.dumps((op, payload), protocol=4))
             self.p.stdin.flush()
-        except BrokenPipeError:
+        except (BrokenPipeError, OSError):
             return self._dead()
-        fd = self.p.stdout.fileno()
+        fd = self.p.stdout.fileno()       # exactly one reply per request: nothing is left in the reader's buffer here
         r, _, _ = select.select([fd], [], [], timeout)
         if not r:
             self.p.kill()
